@@ -66,7 +66,7 @@ func cmdCheck(args []string) {
 		seed, _ = strconv.Atoi(s)
 	}
 	start := time.Now()
-	timeout := 45
+	timeout := 60
 	if *tier == "thorough" {
 		thoroughTier = true
 		timeout = 150
@@ -135,7 +135,7 @@ func cmdCheck(args []string) {
 	}
 	t0 := time.Now()
 	solveAll(obls, dir, timeout, 10, false)
-	// an undecided obligation (no model) may be a time-out caused by machine load: one retry with twice the
+	// an undecided obligation (no model) may be a time-out caused by machine load: one retry with three times the
 	// budget and fewer concurrent queries before it is reported
 	var retry []*Obligation
 	noRetry := os.Getenv("GOVC_NORETRY") != "" // seed sweeps: an undecided obligation is as good as a failed one
@@ -146,8 +146,8 @@ func cmdCheck(args []string) {
 		}
 	}
 	if len(retry) > 0 {
-		fmt.Fprintf(os.Stderr, "govc check %s: %d undecided obligation(s), retrying with timeout %ds\n", prop, len(retry), 2*timeout)
-		solveAll(retry, dir, 2*timeout, 5, false)
+		fmt.Fprintf(os.Stderr, "govc check %s: %d undecided obligation(s), retrying with timeout %ds\n", prop, len(retry), 3*timeout)
+		solveAll(retry, dir, 3*timeout, 4, false)
 	}
 	solverS := time.Since(t0).Seconds()
 
